@@ -237,16 +237,22 @@ def arbitrary_games(draw, min_n: int = 2, max_n: int = 5, classes=("int", "dyadi
     n = draw(st.integers(min_n, max_n))
     cls = draw(st.sampled_from(classes))
     size = 1 << n
+    how = "arbitrary"
     if cls == "float":
         vals = draw(st.lists(st.floats(min_value=-1e4, max_value=1e4, allow_nan=False, allow_subnormal=False),
                              min_size=size, max_size=size))
     else:
         vals = draw(st.lists(st.integers(-64, 64), min_size=size, max_size=size))
+        if draw(st.integers(0, 2)) == 0:
+            # sub-consistent data: big coalitions are worth LESS than their parts (what revealed values of a game outside
+            # the assumed class look like); only such inputs separate "split into known parts" from "split into any parts"
+            how = "arbitrary-decreasing"
+            vals = [abs(x) % 9 + 1 if popcount(s) == 1 else (x % 7) - 3 * (popcount(s) - 1) for s, x in enumerate(vals)]
         if cls == "dyadic":
             vals = scale_game(vals, draw(st.integers(1, 12)))
     vals = [float(x) for x in vals]
     vals[0] = 0.0
-    return {"n": n, "cls": cls, "v": vals, "how": "arbitrary"}
+    return {"n": n, "cls": cls, "v": vals, "how": how}
 
 
 @st.composite
@@ -258,8 +264,15 @@ def knowledge_sets(draw, n: int, minimal: bool = True):
     rest = [s for s in range(1 << n) if s not in mins]
     if not rest:
         return sorted(mins)
-    dens = draw(st.sampled_from([0, 1, 2, 3, 5, 7, 8]))   # eighths
-    if dens == 0:
+    dens = draw(st.sampled_from([0, 1, 2, 3, 5, 7, 8, "layers"]))   # eighths, or whole size-layers
+    if dens == "layers":
+        # all coalitions of some sizes known, all of the other sizes unknown (plus a little noise): the shape in which
+        # bounds of a coalition can only come from splits into unknown parts or from far-away known coalitions
+        sizes = draw(st.lists(st.integers(2, max(2, n - 1)), min_size=1, max_size=max(1, n - 2), unique=True))
+        extra = [s for s in rest if popcount(s) in sizes]
+        noise = draw(st.lists(st.sampled_from(rest), max_size=2, unique=True))
+        extra = sorted(set(extra) ^ set(noise))
+    elif dens == 0:
         extra: list[int] = []
     elif dens == 8:
         extra = rest
